@@ -26,6 +26,7 @@
 //@rule TYPEID :: \(\*payload\)\.type_id\(\) == TypeId::of::<SendError>\(\) :: payload_is_send_error(&payload) :: R10 Any/TypeId are outside Verus: uninterpreted attribute of the payload
 //@rule RESUME :: panic::resume_unwind\(payload\) :: resume_unwind(payload) :: R10 diverging stub
 //@rule NAMEMAP :: \.map\(\|id\| (self\.model_names\.get\(id\)\.unwrap\(\)\.clone\(\))\) :: .map(|id: usize| -> (r: String) { \1 }) :: R17 typed, braced closure so that it can carry a requires clause
+//@rule RUNGHOST :: self\.executor\.run\(self\.timeout\) :: self.executor.run(self.timeout, Ghost(self.time.val()), Ghost(last_sync(self.clock.syncs()))) :: R2 ghost arguments: the executor's log records the time and the last synchronised time at which it was entered
 //@rule ASSERTNE :: assert_ne!\(id, usize::MAX\); :: if id == usize::MAX { vpanic(); } :: R6 panics are divergence
 //@rule LAGCMP :: if &lag > tolerance :: if dur_gt(&lag, tolerance) :: R16 comparison of std Durations through a specified stub
 //@rule ARMBRACE :: None => return Ok\(None\), :: None => { return Ok(None) } :: R17 braces around a match-arm expression so that a proof block can precede it
@@ -168,12 +169,10 @@ impl Simulation {
     }
 //@end
 
-//@item src=nexosim/src/simulation.rs kind=fn name=run within=`impl Simulation` rules=LIFT,RET,RETMAPERR,TYPEID,RESUME,NAMEMAP props=C06,C11,C18
+//@item src=nexosim/src/simulation.rs kind=fn name=run within=`impl Simulation` rules=RUNGHOST,LIFT,RET,RETMAPERR,TYPEID,RESUME,NAMEMAP props=C06,C11,C18
     fn run(&mut self) -> (res: Result<(), ExecutionError>)
         //@[
         requires
-            // C18: the clock was synchronised on the current time before any computation for it starts
-            old(self).clock.syncs().len() > 0 && old(self).clock.syncs().last() == old(self).time.val(),  //@ C18 #sync-before-run
             old(self).executor.n_models() == old(self).model_names@.len(),
         ensures
             final(self).time.val() == old(self).time.val(),                                    //@ C01,C11 #run-keeps-time
@@ -187,8 +186,11 @@ impl Simulation {
             final(self).clock_tolerance == old(self).clock_tolerance,
             // C11: a terminated simulation returns Terminated and no model code runs
             old(self).is_terminated ==> (res matches Err(ExecutionError::Terminated))           //@ C11 #terminated-stays
-                && final(self).executor.runs() == old(self).executor.runs() && final(self).is_terminated,  //@ C11 #terminated-stays
-            !old(self).is_terminated ==> final(self).executor.runs() == old(self).executor.runs() + 1,
+                && final(self).executor.run_at() == old(self).executor.run_at() && final(self).is_terminated,  //@ C11 #terminated-stays
+            // the model code runs exactly once, at the current time, the clock being synchronised on whatever it was last
+            // synchronised on: the callers' contracts say what these two must be (C01: the deadline; C18: the same deadline)
+            !old(self).is_terminated ==> final(self).executor.run_at()
+                == old(self).executor.run_at().push((old(self).time.val(), last_sync(old(self).clock.syncs()))),
             // C11: every error reported by run is fatal and terminates the simulation
             res is Err ==> final(self).is_terminated,                                          //@ C11 #error-terminates
             res is Ok ==> final(self).is_terminated == old(self).is_terminated,                //@ C11 #ok-keeps-state
@@ -204,7 +206,7 @@ impl Simulation {
             return Err(ExecutionError::Terminated);
         }
 
-        match self.executor.run(self.timeout) { Ok(v) => Ok(v), Err(e) => Err(self.__run_map_err(e)) }
+        match self.executor.run(self.timeout, Ghost(self.time.val()), Ghost(last_sync(self.clock.syncs()))) { Ok(v) => Ok(v), Err(e) => Err(self.__run_map_err(e)) }
     }
 
     fn __run_map_err(&mut self, e: ExecutorError) -> (r: ExecutionError)
@@ -218,7 +220,7 @@ impl Simulation {
             final(self).clock.syncs() == old(self).clock.syncs(),
             final(self).clock.last_status() == old(self).clock.last_status(),
             final(self).executor.spawned() == old(self).executor.spawned(),
-            final(self).executor.runs() == old(self).executor.runs(),
+            final(self).executor.run_at() == old(self).executor.run_at(),
             final(self).executor.n_models() == old(self).executor.n_models(),
             final(self).model_names@ == old(self).model_names@,
             final(self).observers@ == old(self).observers@,
@@ -353,12 +355,18 @@ impl Simulation {
             res matches Err(ExecutionError::OutOfSync(lag)) ==> !old(self).is_terminated          //@ C18 #out-of-sync-exact
                 && final(self).clock.last_status() == SyncStatus::OutOfSync(lag)                  //@ C18 #out-of-sync-exact
                 && (old(self).clock_tolerance matches Some(tol) && dur_ns(lag) > dur_ns(tol))     //@ C18 #out-of-sync-exact
-                && final(self).executor.runs() == old(self).executor.runs()                       //@ C18 #out-of-sync-exact
+                && final(self).executor.run_at() == old(self).executor.run_at()                       //@ C18 #out-of-sync-exact
                 && stepped_sync(*old(self), *final(self)),                                        //@ C18 #out-of-sync-exact
             (!old(self).is_terminated && !(res matches Ok(None)) && !(res matches Err(ExecutionError::OutOfSync(_)))) ==>   //@ C18 #lag-within-tolerance-proceeds
                 stepped_sync(*old(self), *final(self)) && final(self).executor.runs() == old(self).executor.runs() + 1      //@ C18 #lag-within-tolerance-proceeds
                 && !(final(self).clock.last_status() matches SyncStatus::OutOfSync(lag)                                     //@ C18 #lag-within-tolerance-proceeds
                      && old(self).clock_tolerance matches Some(tol) && dur_ns(lag) > dur_ns(tol)),                          //@ C18 #lag-within-tolerance-proceeds
+            // whenever the models run in this step, they run once, at the new time (C01: a handler reading the time sees its
+            // deadline) and after the clock was synchronised on that time (C18)
+            (!old(self).is_terminated && !(res matches Ok(None)) && !(res matches Err(ExecutionError::OutOfSync(_)))) ==>   //@ C01 #handlers-see-the-deadline
+                ran_at_the_new_time(*old(self), *final(self)),                                                              //@ C01 #handlers-see-the-deadline
+            (!old(self).is_terminated && !(res matches Ok(None)) && !(res matches Err(ExecutionError::OutOfSync(_)))) ==>   //@ C18 #synchronized-before-the-models-run
+                ran_after_sync(*old(self), *final(self)),                                                                   //@ C18 #synchronized-before-the-models-run
         //@]
     {
         // Function pulling the next action. If the action is periodic, it is
@@ -551,7 +559,7 @@ impl Simulation {
                 self.clock_tolerance == old(self).clock_tolerance,
                 self.model_names@ == old(self).model_names@, self.observers@ == old(self).observers@,
                 self.executor.n_models() == old(self).executor.n_models(),
-                self.executor.runs() == old(self).executor.runs(),                                //@ C11,C18
+                self.executor.run_at() == old(self).executor.run_at(),                                //@ C11,C18
                 syncs0 == old(self).clock.syncs(), pend0 == old(self).executor.spawned(), time0 == old(self).time.val(),
                 syncs0.len() > 0, term0 == old(self).is_terminated,
                 sorted(self.scheduler_queue.view()), no_zero_period(self.scheduler_queue.view()),
@@ -641,7 +649,7 @@ impl Simulation {
                         sorted(self.scheduler_queue.view()), no_zero_period(self.scheduler_queue.view()),
                         due_inv(qa, kk, t, self.scheduler_queue.view(), d), d < d_in,
                         self.executor.spawned() == pend0 + tasks,
-                        self.executor.runs() == old(self).executor.runs(),
+                        self.executor.run_at() == old(self).executor.run_at(),
                         self.executor.n_models() == old(self).executor.n_models(),
                         self.time.val() == t, self.clock.syncs() == syncs0, self.is_terminated == term0,
                         self.clock_tolerance == old(self).clock_tolerance,
@@ -799,6 +807,8 @@ impl Simulation {
             res is Ok ==> final(self).clock.syncs().last() == target_time.t,                    //@ C18 #sync-on-target
             // C18: every new time passed through is synchronised exactly once, in increasing order
             res is Ok ==> sync_trace_ok(*old(self), *final(self), target_time.t),               //@ C18 #each-new-time-synchronised-exactly-once
+            // C18: the models never run at a time the clock was not synchronised on first
+            runs_consistent(old(self).executor.run_at(), final(self).executor.run_at()),         //@ C18 #synchronized-before-the-models-run
             // C11
             old(self).is_terminated ==> (res matches Err(ExecutionError::Terminated))            //@ C11 #terminated-no-effect
                 && terminated_noop(*old(self), *final(self)),                                   //@ C11 #terminated-no-effect
@@ -827,6 +837,7 @@ impl Simulation {
                 self.time.val() >= old(self).time.val(),
                 self.is_terminated == old(self).is_terminated,
                 old(self).is_terminated ==> terminated_noop(*old(self), *self),
+                runs_consistent(old(self).executor.run_at(), self.executor.run_at()),               //@ C18 #synchronized-before-the-models-run
             decreases target_time.t - self.time.val(),                                          //@ C08 #step-until-terminates
             //@]
         {
@@ -919,6 +930,8 @@ impl Simulation {
             res is Ok ==> idle(*old(self), *final(self), u64::MAX) || stepped_groups(*old(self), *final(self)),   //@ C07 #one-task-per-origin-in-order
             res is Ok ==> idle(*old(self), *final(self), u64::MAX) || stepped_queue(*old(self), *final(self)),    //@ C08,C09,C10 #queue-accounting
             res is Ok ==> idle(*old(self), *final(self), u64::MAX) || stepped_sync(*old(self), *final(self)),     //@ C18 #one-sync-per-step
+            res is Ok ==> idle(*old(self), *final(self), u64::MAX) || ran_at_the_new_time(*old(self), *final(self)),   //@ C01 #handlers-see-the-deadline
+            res is Ok ==> idle(*old(self), *final(self), u64::MAX) || ran_after_sync(*old(self), *final(self)),        //@ C18 #synchronized-before-the-models-run
             old(self).is_terminated ==> (res matches Err(ExecutionError::Terminated))            //@ C11 #terminated-no-effect
                 && terminated_noop(*old(self), *final(self)),                                   //@ C11 #terminated-no-effect
             res matches Err(e) ==> final(self).is_terminated && is_fatal(e),                     //@ C11 #error-terminates
@@ -943,10 +956,11 @@ impl Simulation {
             final(self).time.val() >= old(self).time.val(),                                     //@ C01 #time-monotone
             res is Ok ==> final(self).time.val() == deadline.into_time_spec(MonotonicTime { t: old(self).time.val() }).t,   //@ C01 #reaches-target
             res is Ok ==> final(self).clock.syncs().last() == final(self).time.val(),            //@ C18 #sync-on-target
+            runs_consistent(old(self).executor.run_at(), final(self).executor.run_at()),         //@ C18 #synchronized-before-the-models-run
             // a deadline in the past is rejected without any effect (non-fatal)
             deadline.into_time_spec(MonotonicTime { t: old(self).time.val() }).t < old(self).time.val() ==>
                 (res matches Err(ExecutionError::InvalidDeadline(_))) && final(self).time.val() == old(self).time.val()     //@ C01,C11 #past-deadline-rejected
-                && final(self).is_terminated == old(self).is_terminated && final(self).executor.runs() == old(self).executor.runs(),  //@ C01,C11 #past-deadline-rejected
+                && final(self).is_terminated == old(self).is_terminated && final(self).executor.run_at() == old(self).executor.run_at(),  //@ C01,C11 #past-deadline-rejected
             // C11: on a terminated simulation nothing runs and the time does not move
             old(self).is_terminated ==> res is Err && terminated_noop(*old(self), *final(self)),  //@ C11 #terminated-no-effect
             old(self).is_terminated && deadline.into_time_spec(MonotonicTime { t: old(self).time.val() }).t >= old(self).time.val()
@@ -979,6 +993,9 @@ impl Simulation {
             final(self).scheduler_queue.view() == old(self).scheduler_queue.view(),
             final(self).clock.syncs() == old(self).clock.syncs(),                               //@ C18 #process-no-sync
             final(self).executor.spawned() == old(self).executor.spawned().push(seq![action.aid()]),
+            // the action runs at the current time (on which the clock is synchronised: wf)
+            !old(self).is_terminated ==> final(self).executor.run_at()                           //@ C01 #process-runs-at-the-current-time
+                == old(self).executor.run_at().push((old(self).time.val(), old(self).time.val() as int)),   //@ C01 #process-runs-at-the-current-time
             old(self).is_terminated ==> (res matches Err(ExecutionError::Terminated))            //@ C11 #terminated-no-effect
                 && terminated_noop(*old(self), *final(self)),                                   //@ C11 #terminated-no-effect
             res matches Err(e) ==> final(self).is_terminated && is_fatal(e),                     //@ C11 #error-terminates
@@ -1041,6 +1058,8 @@ impl Simulation {
             final(self).time.val() == old(self).time.val(),                                     //@ C01,C11 #process-keeps-time
             final(self).scheduler_queue.view() == old(self).scheduler_queue.view(),
             final(self).clock.syncs() == old(self).clock.syncs(),                               //@ C18 #process-no-sync
+            !old(self).is_terminated ==> final(self).executor.run_at()                           //@ C01 #process-runs-at-the-current-time
+                == old(self).executor.run_at().push((old(self).time.val(), old(self).time.val() as int)),   //@ C01 #process-runs-at-the-current-time
             old(self).is_terminated ==> (res matches Err(ExecutionError::Terminated))            //@ C11 #terminated-no-effect
                 && terminated_noop(*old(self), *final(self)),                                   //@ C11 #terminated-no-effect
             res matches Err(e) ==> final(self).is_terminated && is_fatal(e),                     //@ C11 #error-terminates
@@ -1074,6 +1093,8 @@ impl Simulation {
             final(self).time.val() == old(self).time.val(),                                     //@ C01,C11 #process-keeps-time
             final(self).scheduler_queue.view() == old(self).scheduler_queue.view(),
             final(self).clock.syncs() == old(self).clock.syncs(),                               //@ C18 #process-no-sync
+            !old(self).is_terminated ==> final(self).executor.run_at()                           //@ C01 #process-runs-at-the-current-time
+                == old(self).executor.run_at().push((old(self).time.val(), old(self).time.val() as int)),   //@ C01 #process-runs-at-the-current-time
             old(self).is_terminated ==> (res matches Err(ExecutionError::Terminated))            //@ C11 #terminated-no-effect
                 && terminated_noop(*old(self), *final(self)),                                   //@ C11 #terminated-no-effect
             res matches Err(e) && is_fatal(e) ==> final(self).is_terminated,                     //@ C11 #error-terminates
@@ -1159,10 +1180,17 @@ impl SimInit {
             self.executor.n_models() == self.model_names@.len(),
         ensures
             // C18: initialisation synchronizes exactly once, on the start time, and only then runs the init code
-            // (the order is the precondition `syncs.last() == time` of Simulation::run)
             res matches Ok((sim, _s)) ==> sim.clock.syncs() == self.clock.syncs().push(start_time.t)     //@ C18 #init-synchronizes-once-on-the-start-time
                 && sim.executor.runs() == self.executor.runs() + 1                                      //@ C18 #init-synchronizes-once-on-the-start-time
-                && sim.time.val() == start_time.t && sim.wf() && !sim.is_terminated,                    //@ C01,C18 #init-establishes-wf
+                && sim.executor.run_at().last().1 == start_time.t,                                      //@ C18 #init-synchronizes-before-the-init-code-runs
+            // C01: the init code runs at the start time (what it reads, and what it schedules relative to, is the start time)
+            res matches Ok((sim, _s)) ==> sim.executor.run_at().last().0 == start_time.t,               //@ C01 #init-code-runs-at-the-start-time
+            // the initial state satisfies the invariant of every public operation, component by component
+            res matches Ok((sim, _s)) ==> sim.time.val() == start_time.t,                                //@ C01 #init-starts-at-the-start-time
+            res matches Ok((sim, _s)) ==> sorted(sim.scheduler_queue.view()) && all_later(sim.scheduler_queue.view(), sim.time.val()),   //@ C01 #pending-strictly-later
+            res matches Ok((sim, _s)) ==> no_zero_period(sim.scheduler_queue.view()),                    //@ C08 #no-zero-period
+            res matches Ok((sim, _s)) ==> sim.clock.syncs().len() > 0 && sim.clock.syncs().last() == sim.time.val(),   //@ C18 #synced-on-current-time
+            res matches Ok((sim, _s)) ==> sim.executor.n_models() == sim.model_names@.len() && !sim.is_terminated,    //@ C11 #model-ids-valid
         //@]
     {
         let mut self_ = self;
